@@ -1,17 +1,36 @@
-"""Witness (run by hand): the stub of a module with a traced method of a nested class does not parse.
-    /venv/bin/python /verif/witness/c12_nested_class.py"""
-import ast, inspect
-from monkeytype.stubs import FunctionDefinition, build_module_stubs
-
-class Outer:
-    class Inner:
-        def deep(self, x): return x
-
-d = FunctionDefinition.from_callable(Outer.Inner.deep)
-text = build_module_stubs([d])[__name__].render()
+"""Witness for R-C12.4 nested classes (run by hand: PYTHONPATH=/repo /venv/bin/python witness/c12_nested_class.py; exit 1
+while the defect is present): the stub of a module with a traced method of a nested class must parse, hold the method
+inside `class Outer: class Inner:`, and apply to the source."""
+import ast, os, sys, tempfile, textwrap
+d = tempfile.mkdtemp(); sys.path.insert(0, d)
+src = textwrap.dedent('''
+    class Outer:
+        def top(self, a): return a
+        class Inner:
+            def deep(self, x): return x
+            class Core:
+                @staticmethod
+                def s(y): return y
+''')
+open(os.path.join(d, "nest_mod.py"), "w").write(src)
+import nest_mod
+from monkeytype.tracing import CallTrace
+from monkeytype.stubs import build_module_stubs_from_traces
+from monkeytype import cli
+traces = [CallTrace(nest_mod.Outer.Inner.deep, {"self": nest_mod.Outer.Inner, "x": int}, int),
+          CallTrace(nest_mod.Outer.top, {"self": nest_mod.Outer, "a": str}, str),
+          CallTrace(nest_mod.Outer.Inner.Core.s, {"y": float}, float)]
+text = build_module_stubs_from_traces(traces, 0)["nest_mod"].render()
 print(text)
 try:
-    ast.parse(text)
-    raise SystemExit("unexpectedly valid")
+    tree = ast.parse(text)
 except SyntaxError as e:
-    print("SyntaxError:", e.msg)
+    print("WITNESSED: the stub does not parse:", e.text.strip()); sys.exit(1)
+outer = [n for n in tree.body if isinstance(n, ast.ClassDef) and n.name == "Outer"][0]
+inner = [n for n in outer.body if isinstance(n, ast.ClassDef) and n.name == "Inner"][0]
+core = [n for n in inner.body if isinstance(n, ast.ClassDef) and n.name == "Core"][0]
+assert [n.name for n in inner.body if isinstance(n, ast.FunctionDef)] == ["deep"] and [n.name for n in core.body if isinstance(n, ast.FunctionDef)] == ["s"]
+applied = cli.apply_stub_using_libcst(text, src, False)
+print(applied)
+assert "def deep(self, x: int) -> int" in applied and "def s(y: float) -> float" in applied and "def top(self, a: str) -> str" in applied
+print("OK")
